@@ -267,6 +267,31 @@ def oracle(case):
 		return (o.value, sorted((k if isinstance(k, bytes) else k.encode(), v if not isinstance(v, bytes) else v.decode('utf-8', 'replace')) for k, v in o.params.items()))
 	exp = [(o.value, sorted((k if isinstance(k, bytes) else k.encode(), v) for k, v in o.params.items())) for o in objs]
 	got = [canon(o) for o in back]
+	# the other public ways to write the same parameters: Headers.append(name, value, **params) and formatparam(..., quote=True)
+	if not fid and kind == 'generic':
+		from httoop import Headers
+		from httoop.header.element import HeaderElement
+		for (kind_, v_, ps_) in els[:1]:
+			if not ps_ or not v_.isascii():
+				continue
+			try:
+				h0 = Headers()
+				h0.append('X-Foo', v_, **dict(ps_))
+				e0 = h0.elements('X-Foo')[0]
+				have = sorted((k.lower() if isinstance(k, bytes) else k.lower().encode(), x if not isinstance(x, bytes) else x.decode('utf-8', 'replace')) for k, x in e0.params.items())
+				want = sorted((k.lower().encode(), x) for k, x in ps_)
+				if have != want:
+					return {'what': 'Headers.append(name, value, **params) wrote %r, read back as %r, given %r' % (dict.__getitem__(h0, 'X-Foo'), have, want), 'finding': None}
+				for k, x in ps_:
+					if not x or u'=?' in x or u'"' in x or u'\\' in x or any(ord(c) < 0x20 for c in x):
+						continue          # the classes of F56, F20, F1c, judged on the whole element above
+					w = HeaderElement.formatparam(k.encode(), x, quote=True)
+					e1 = HeaderElement.parse(b'v; ' + w)
+					got1 = [(kk if isinstance(kk, bytes) else kk.encode(), xx) for kk, xx in e1.params.items()]
+					if got1 != [(k.lower().encode(), x)]:
+						return {'what': 'formatparam(%r, %r, quote=True) wrote %r, read back as %r' % (k, x, w, got1), 'finding': None}
+			except Exception as e:
+				return {'what': 'append(**params) / formatparam(quote=True) raised %s: %s' % (exc_name(e), e), 'elements': repr(els)[:300], 'finding': None}
 	# the same through a header collection, twice: what a caller does to the elements it was handed does not show in a later reading
 	if not fid:
 		from httoop import Headers
